@@ -26,6 +26,10 @@ CHECKS = {
    technique='deterministic simulation: seeded stream/cursor/EOF-fault simulation of the primitive decoders against a reference codec + cursor model',
    text="Seeded deterministic simulation of the primitive decoders as stream behaviour: generated images from an independent reference codec, a cursor model, displacement between parses, and an injected end-of-file at every byte of every generated encoding; plus enumerated LEB128 prefixes and 24-bit values. Sampling of values (boundary classes), complete EOF sweep per encoding: evidence, not proof.",
    note="Trusted: the 80-line reference codec in dst/engines/primsim.py and SimStream's BytesIO-compatible semantics. Initial-length words 0xffffff00..0xffffffef are accepted either way (DWARF v3 vs v4/v5 disagree)."),
+ 'C19': dict(engine='faultsim', category='fault_enumeration', design_ref='DESIGN.md section 3 / C19',
+   technique='deterministic simulation with fault injection: enumerated and seeded stored-byte faults (truncation, substitution, structure-aware field corruption, random bytes) on a simulated disk with an I/O clock and read-request accounting',
+   text="Every truncation length up to 4 KiB and around every structural boundary, every listed single-byte substitution of the 64-byte header region (enumerated per seed image; quick sweeps a seeded third of the images, thorough all), plus seeded multi-field structure-aware corruptions and random byte strings. Oracles: constructor outcome is success or ELFError; the fixed enumeration battery terminates within deterministic budgets on the simulated I/O clock (stream operations, bytes returned, largest read request). Enumeration of the named fault classes on the seed images; sampling for field/bytes.",
+   note="Trusted: SimStream's BytesIO-compatible semantics and accounting; budget constants K_ops=K_bytes=1024*W, K_read=16*W with W=max(file size, 4096) - generous on purpose, they separate loops bounded by the file size or a 16-bit count from loops driven by an unchecked 32/64-bit field. Loops that do no I/O are only caught by the wall-clock watchdog."),
 }
 
 def main():
@@ -47,7 +51,7 @@ def main():
         engines.setdefault(c['engine'], []).append(pid)
     m = dict(
         version=1,
-        setup_cmd="/venv/bin/python -S -B -c \"import compileall,sys; sys.exit(0 if compileall.compile_dir('dst', quiet=1, legacy=False, ddir='dst', force=False, workers=1) or True else 1)\" >/dev/null 2>&1; test -x ./check",
+        setup_cmd="chmod +x ./check && /venv/bin/python -S -B dst/cli.py --help >/dev/null",
         hooks=dict(guard="ELIBEN_PYELFTOOLS_VERIF", enable="no source hook exists: all seams (ELFFile stream argument, stream_loader, public DebugSectionDescriptor.stream attributes, generator resumption points) are public; the guard name is reserved and unused",
                    baseline_off_cmd=BASE, source_commits=[], add_only=True),
         engines=[dict(name=n, path="dst/engines/%s.py" % n, serves_properties=sorted(p),
